@@ -1517,14 +1517,9 @@ pub fn c19_eval_cell_after<D: Dec>(run: &mut Run, hist: &[u8], p: Pfx, code: u8,
                 format!("break=Down({:?})", k2),
                 format!("{}: break form [{}] decodes as a press of {:?}", D::NAME, hex(&brk), k2),
             ),
-            KeyState::SingleShot => {
-                if !matches!(mk, Some((_, KeyState::SingleShot))) {
-                    bad(
-                        format!("break=SingleShot({:?})", k2),
-                        format!("{}: break form [{}] decodes as one-shot {:?} but the make form is not a one-shot", D::NAME, hex(&brk), k2),
-                    )
-                }
-            }
+            // a break form that decodes as a one-shot status event is neither a press nor a
+            // release: the statement puts the one-shot status codes aside, nothing to check
+            KeyState::SingleShot => {}
         }
     }
 }
@@ -1684,8 +1679,7 @@ fn c19_per_state<D: Dec>(run: &mut Run) {
                     Some((_, KeyState::SingleShot)) => true,
                     Some((_, KeyState::Up)) => false,
                     None => !matches!(bk, Some((_, KeyState::Up))) || (matches!(om, Ok(None)) && matches!(ob, Ok(None))),
-                } && !matches!(bk, Some((_, KeyState::Down)))
-                    && !(matches!(bk, Some((_, KeyState::SingleShot))) && !matches!(mk, Some((_, KeyState::SingleShot))));
+                } && !matches!(bk, Some((_, KeyState::Down)));
                 if !ok && bad.len() < 6 {
                     bad.push((s, *p, *c, "pair"));
                 }
@@ -1801,8 +1795,7 @@ fn c19_after_long_histories<D: Dec>(run: &mut Run) {
                     Some((_, KeyState::SingleShot)) => true,
                     Some((_, KeyState::Up)) => false,
                     None => !matches!(bk, Some((_, KeyState::Up))),
-                } && !matches!(bk, Some((_, KeyState::Down)))
-                    && !(matches!(bk, Some((_, KeyState::SingleShot))) && !matches!(mk, Some((_, KeyState::SingleShot))));
+                } && !matches!(bk, Some((_, KeyState::Down)));
                 if !ok && bad.len() < 4 { bad.push((hi, *p, *c, "pair")); }
             }
             bad.into_iter()
@@ -1866,6 +1859,23 @@ fn c13_seqs(p: Pfx, c2: u8, brk: bool) -> Option<(Vec<u8>, Vec<u8>)> {
     Some((s2, s1))
 }
 
+/// Keys a decoder can express at all: every key some (prefix, code) make sequence decodes to.
+fn expressible<D: Dec>() -> std::collections::BTreeSet<u8> {
+    let mut set = std::collections::BTreeSet::new();
+    let codes: Vec<u8> = if D::IS_SET2 { (0..=255u8).collect() } else { (0..=0x7Fu8).collect() };
+    for p in sc::PFXS {
+        for &c in &codes {
+            let (m, _) = c19_forms::<D>(p, c);
+            if let Ok(o) = last_out::<D>(&m) {
+                if let Some((k, KeyState::Down)) = ev_of(&o) {
+                    set.insert(k as u8);
+                }
+            }
+        }
+    }
+    set
+}
+
 pub fn c13_eval_forward(run: &mut Run, p: Pfx, c2: u8, brk: bool) {
     let Some((s2, s1)) = c13_seqs(p, c2, brk) else { return };
     debug_assert_eq!(sc::xlat_stream(&s2).as_deref(), Some(&s1[..]));
@@ -1886,7 +1896,10 @@ pub fn c13_eval_forward(run: &mut Run, p: Pfx, c2: u8, brk: bool) {
         run.sample(|| json!({"direction":"forward","set2_bytes":hex(&s2),"set2_out":sc_out_str(&a),"i8042_set1_bytes":hex(&s1),"set1_out":sc_out_str(&b)}));
     }
     if let Some((k, st)) = ev_of(&o2) {
-        if ev_of(&o1) != Some((k, st)) {
+        // the property speaks of keys BOTH sets can express: if Set 1 decodes nothing here and
+        // cannot express this key at all, there is nothing to compare
+        let set1_silent_and_key_unknown_to_set1 = ev_of(&o1).is_none() && !expressible::<ScancodeSet1>().contains(&(k as u8));
+        if ev_of(&o1) != Some((k, st)) && !set1_silent_and_key_unknown_to_set1 {
             run.violation(Violation {
                 sig: format!("xlat:fwd:{}:s2={:02X}:{}:set2={}:set1={}", p.name(), c2, if brk { "break" } else { "make" }, sc_out_str(&o2), sc_out_str(&o1)),
                 what: format!("Set 2 [{}] decodes to {} but its i8042 translation, Set 1 [{}], decodes to {}", hex(&s2), sc_out_str(&o2), hex(&s1), sc_out_str(&o1)),
@@ -1935,7 +1948,8 @@ pub fn c13_eval_converse(run: &mut Run, p: Pfx, c1: u8, brk: bool) {
             None => {}
         }
     }
-    if !same {
+    // a key only Set 1 can express is outside 'keys both sets can express'
+    if !same && expressible::<ScancodeSet2>().contains(&(k as u8)) {
         run.violation(Violation {
             sig: format!("xlat:conv:{}:s1={:02X}:{}:set1={}:no-set2-preimage-agrees", p.name(), c1, if brk { "break" } else { "make" }, sc_out_str(&o1)),
             what: format!("Set 1 [{}] decodes to {} but none of the Set 2 sequences the i8042 translates into it does: {}", hex(&s1), sc_out_str(&o1), outs.join(", ")),
